@@ -293,7 +293,7 @@ func (self *Interpreter) infixHelper(lhs ast.AnalyzedExpression, rhs ast.Analyze
 			}
 			intRes = lhsInt.Inner % rhsInt.Inner
 		case pAst.PowerInfixOperator:
-			intRes = int64(math.Pow(float64(lhsInt.Inner), float64(rhsInt.Inner)))
+			intRes = value.IntPow(lhsInt.Inner, rhsInt.Inner)
 		case pAst.ShiftLeftInfixOperator:
 			if rhsInt.Inner < 0 {
 				return nil, nil, value.NewRuntimeErr("Negative shift count: this is operation is illegal", value.ValueErrorKind, opSpan)
